@@ -1268,8 +1268,8 @@ def explore(ctx, rep, cfg):
     """bounded-preemption DFS (bounds 0..B, each capped) then random"""
     ss = SchedStats()
     bounds = ctx.pick([0, 1, 2], [0, 1, 2, 3])
-    cap = cfg.get("cap") or ctx.pick(5000, 60000)
-    nrand = cfg.get("nrand") or ctx.pick(800, 8000)
+    cap = cfg.get("cap") or ctx.pick(5000, 30000)
+    nrand = cfg.get("nrand") or ctx.pick(800, 6000)
     tmp = None
     if cfg.get("backend") == "disk":
         tmp = os.path.join(boot.VERIF, ".work", "c18db-%d-%s" % (
